@@ -43,7 +43,7 @@ type World struct {
 // NewWorld builds the fixture.
 func NewWorld() (*World, error) {
 	w := &World{Sites: map[Cfg]*Site{}}
-	for _, prov := range []string{"google", "okta"} {
+	for _, prov := range []string{"google", "okta", "cognito"} {
 		for _, pol := range []string{"domains", "addresses"} {
 			s, err := newSite(Cfg{Prov: prov, Pol: pol})
 			if err != nil {
